@@ -67,11 +67,11 @@ pub fn reference_trainer(sc: &Scenario, epochs: i32) -> Trained {
                     sum_b = bg;
                 } else {
                     for (s, g) in sum_w.iter_mut().zip(wg.iter()) {
-                        s.add_inplace(g);
+                        add_tensor(s, g);
                     }
                     for (s, g) in sum_b.iter_mut().zip(bg.iter()) {
                         if let (Some(s), Some(g)) = (s.as_mut(), g.as_ref()) {
-                            s.add_inplace(g);
+                            add_tensor(s, g);
                         }
                     }
                 }
@@ -129,7 +129,7 @@ impl Property for C04 {
 
     fn assumptions(&self) -> Vec<String> {
         vec![
-            "the reference trainer reuses the library's forward, backward, objective, add_inplace and optimizer step (C04 decides the orchestration, not those)".into(),
+            "the reference trainer reuses the library's forward, backward, objective and optimizer step (C04 decides the orchestration, not those); the gradient sum is the harness's own code, not Tensor::add_inplace".into(),
             "agreement is judged with |d| <= 1e-4 (1+|w|) on parameters and 1e-5 relative on losses; bitwise agreement is counted separately".into(),
             "E1 scheduling limits as for C05".into(),
         ]
